@@ -34,6 +34,10 @@ def run(chk, flags=FLAGS, reload_kinds=(), tag="c01"):
         from checks import ipcommon
         ip_n, ip_ev = ipcommon.run(chk, random.Random(chk.seed + 29), thorough, "c01")
         n += ip_n
+        # ... and of the pipeline's processing worker (tick flush, final tick and stop flush: Worker.tla NothingHeldBack)
+        from checks import wkcommon
+        wn, wev = wkcommon.run(chk, random.Random(chk.seed + 31), thorough, "c01")
+        n += wn
     chk.cov.update({"traces_validated_against_impl": n, "trace_events": ev, "evaluations": n, "tlc_behaviours_replayed": len(behs),
                     "distinct_nontrivial": len({json.dumps(s["gens"], sort_keys=True) for s in scripts if any(g["upstream"] for g in s["gens"])}),
                     "rule": "histories = fixed stories (refuse then healthy, reset after the first chunk, never-ACK then restart, late ACK after reconnect, disk spill with a 2-chunk memory window then restart, stop in mid retry, connections left open across the stop with a slow input flush, two outputs with one upstream down then a restart without new input, the agent's own main path run.Run in a child process stopped by SIGTERM and reloaded by SIGHUP, the Datadog output against an HTTP intake with every failure kind and with a request in flight at the stop, the singleton orchestrator, shared-key login with servers holding another key, chunks rolling over by record count with the last record opening a new chunk, connections idle for longer than the channel timeout, silent upstream without a scheduled reconnect) + the environment projection of TLC -simulate behaviours of Agent + seeded random histories (1-3 generations on one queue root, 1-3 client connections, 1-3 key sets, per-connection upstream behaviours healthy/close at once/never ACK/reset after 1 or 2 chunks/late ACK/other shared key; 15 % Datadog output, 12 % singleton orchestrator, 30 % chunk record limit 1-5, 30 % without scheduled reconnect, 15 % shared-key login), each ending with a healthy generation that drains; non-trivial = at least one scripted upstream behaviour",
